@@ -72,6 +72,7 @@ def check(repo, res, tier):
                        'and C18.V8 (the pending hot-to-cold volume returns to 0, so a hot buffer over its threshold unblocks)')
     borrow(repo, res, tier, c09, {'C09.R4'}, 'C05.L8')
     borrow(repo, res, tier, c18, {'C18.V8'}, 'C05.L8')
+    borrow(repo, res, tier, c18, {'C18.V3'}, 'C05.L8')
 
 
 # ---------------------------------------------------------------------- L1
